@@ -618,7 +618,10 @@ type ExprBinOpRef<'a> = (&'a Sp<ast::Expr>, Sp<ast::BinOpKind>, &'a Sp<ast::Expr
 impl JmpKind {
     fn as_binop_cond(&self) -> Option<(Sp<ast::CondKeyword>, Sp<ExprBinOpRef<'_>>)> {
         match *self {
+            // (a comparison on a predecrement like `--x > 0` is a counting jump; its negation `--x <= 0`
+            //  cannot be compiled, so it must not be turned into the condition of a block)
             JmpKind::Cond { keyword, cond: sp_pat!(span => ast::Expr::BinOp(ref a, op, ref b)) }
+                if !matches!(a.value, ast::Expr::XcrementOp { .. })
                 => Some((keyword, sp!(span => (a, op, b)))),
 
             _ => None,
